@@ -148,8 +148,10 @@ def entryFields (e0 : Bytes) : Fields :=
   let fourth := pyFind delim e (third + d)
   { path := pySlice e 0 first, sizeRaw := pySlice e (first + d) second,
     pathEcc := pySlice e (second + d) third, sizeEcc := pySlice e (third + d) fourth,
-    -- (as repaired: without a fourth delimiter there is no ecc track - its offset is the end of the entry)
-    trackOff := if fourth < 0 then (e.length : Int) else fourth + d, stripped := e0.length - e.length }
+    -- (as repaired: if any of the four delimiters is missing there is no ecc track - its offset is the end of the entry; after a
+    -- failed search the next one starts over from index 4 and may find an earlier delimiter again, hence all four are tested)
+    trackOff := if first < 0 ∨ second < 0 ∨ third < 0 ∨ fourth < 0 then (e.length : Int) else fourth + d,
+    stripped := e0.length - e.length }
 
 /-! ## intra-ecc correction of a metadata field -/
 
